@@ -24,6 +24,7 @@ import (
 	clienttypes "github.com/teleport-network/teleport/x/xibc/core/client/types"
 	"github.com/teleport-network/teleport/x/xibc/exported"
 
+	"verif/internal/bfs"
 	"verif/internal/checks/agg"
 	"verif/internal/checks/c09"
 	"verif/internal/checks/c10"
@@ -34,7 +35,7 @@ import (
 )
 
 // Scenarios lists the scenario names.
-var Scenarios = []string{"relay", "aggregate", "rvesting", "adapters", "clients", "eth-pow"}
+var Scenarios = []string{"relay", "aggregate", "rvesting", "adapters", "clients", "eth-pow", "bsc-search"}
 
 // RunScenario executes one scenario and returns its trace.
 func RunScenario(name string) []string {
@@ -73,6 +74,8 @@ func RunScenario(name string) []string {
 		clients()
 	case "eth-pow":
 		ethPow()
+	case "bsc-search":
+		bscSearch(&trace)
 	default:
 		panic("unknown scenario " + name)
 	}
@@ -204,3 +207,41 @@ func ethPow() {
 }
 
 var _ = fmt.Sprint
+
+// bscSearch runs a sequential explicit-state search of the real BSC client (the C09 system: every candidate next header
+// at every reachable state, incl. the same validator sealing repeatedly so that it owns several recent-signer entries)
+// and records the verdict of every transition, so that the whole reachable verdict table is compared across environments.
+func bscSearch(trace *[]string) {
+	for _, b := range []c09.Bounds{{N: 3, Epoch: 3, Depth: 6}, {N: 3, Epoch: 4, Depth: 7}, {N: 2, Epoch: 4, Depth: 9}, {N: 4, Epoch: 6, Depth: 6}, {N: 9, Epoch: 6, Depth: 5, U: 10, Big: true, GenesisShrink: 3}} {
+		type node struct {
+			sys  bfs.System
+			hist string
+		}
+		root := c09.New(b)
+		seen := map[string]bool{root.Key(): true}
+		frontier := []node{{root, ""}}
+		n := 0
+		for d := 0; d < b.Depth && len(frontier) > 0; d++ {
+			var next []node
+			for _, nd := range frontier {
+				for _, op := range nd.sys.Ops() {
+					c := nd.sys.Clone()
+					obs, class, viols := c.Apply(op)
+					n++
+					line := fmt.Sprintf("teleport_search N=%d E=%d [%s] %s -> %s | %s", b.N, b.Epoch, nd.hist, op, obs, class)
+					for _, v := range viols {
+						line += " VIOL " + v.Sig
+					}
+					*trace = append(*trace, line)
+					k := c.Key()
+					if !seen[k] {
+						seen[k] = true
+						next = append(next, node{c, nd.hist + op + ";"})
+					}
+				}
+			}
+			frontier = next
+		}
+		*trace = append(*trace, fmt.Sprintf("teleport_search N=%d E=%d states=%d transitions=%d", b.N, b.Epoch, len(seen), n))
+	}
+}
